@@ -41,7 +41,9 @@ REQUIRED = ["histories", "connections_up", "connections_down",
             "barrier_unsupported_path"]
 TIMEOUT = {"quick": 900, "thorough": 7200}
 
-DPIDS = [0x11, 0x22]
+# (datapath id 0 is a legal id: code that tests "if dpid:" instead of
+#  "is not None" shows up with it)
+DPIDS = [0x11, 0]
 
 
 class PeerModel (object):
@@ -479,8 +481,8 @@ def plan (tier, seed):
             [dict(mode="multi", n=1500, maxlen=25, sub=i) for i in range(6)] +
             [dict(mode="reconnect", n=400, sub=i) for i in range(4)])
   return ([dict(mode="single", shard=i, nshards=16) for i in range(16)] +
-          [dict(mode="multi", n=6000, maxlen=40, sub=i) for i in range(12)] +
-          [dict(mode="reconnect", n=3000, sub=i) for i in range(4)])
+          [dict(mode="multi", n=60000, maxlen=40, sub=i) for i in range(32)] +
+          [dict(mode="reconnect", n=40000, sub=i) for i in range(16)])
 
 
 def run (spec, rep):
